@@ -991,14 +991,10 @@ func evalDiv(args []ast.Constant) (int64, error) {
 		if err != nil {
 			return 0, err
 		}
-		switch v {
-		case 0:
+		if v == 0 {
 			return 0, ErrDivisionByZero
-		case 1:
-			return 1, nil
-		default:
-			return 0, nil // integer division 1 / arg[0]
 		}
+		return 1 / v, nil // integer division 1 / arg[0]
 	}
 	res, err := args[0].NumberValue()
 	if err != nil {
